@@ -121,8 +121,18 @@ def uses_in_recursion(body, names, rec_callees, self_worklist=True):
     return used
 
 
-def check(crate, fn, enum_path, rec_callees=None):
-    """Returns (instances, holes): instances = [(variant, where)], holes = [(variant, reason, where)]."""
+def uses_in_result(body, names):
+    """Which of `names` occur in the value the body evaluates to (tail expressions and `return` operands)."""
+    used = set()
+    for leaf in hirq.tail_leaves(body) + [x["e"] for x in walk(body) if kind(x) == "Ret" and x.get("e") is not None]:
+        used |= set(x["name"] for x in walk(leaf) if kind(x) == "Path" and x.get("res") == "local" and x["name"] in names)
+    return used
+
+
+def check(crate, fn, enum_path, rec_callees=None, returns_children=False):
+    """Returns (instances, holes): instances = [(variant, where)], holes = [(variant, reason, where)].
+    returns_children: fn hands the children back to a traversal that called it (e.g. `split_children(expr) ->
+    (Option<&Expr>, Option<&Expr>)`), so a child flows on by appearing in the arm's value."""
     rf = rec_fields(crate, enum_path)
     ms = enum_matches(fn, enum_path)
     if rf is None or not ms:
@@ -158,6 +168,8 @@ def check(crate, fn, enum_path, rec_callees=None):
                 holes.append((v, "field %d is not bound" % i, hirq.where(arm["pat"])))
                 continue
             used = uses_in_recursion(arm["body"], names, rec_callees)
+            if returns_children:
+                used |= uses_in_result(arm["body"], names)
             if not (names & used):
                 holes.append((v, "sub-expression `%s` does not flow into the recursion" % "/".join(sorted(names)),
                               hirq.where(arm["body"])))
